@@ -155,3 +155,105 @@ func HPagedSlice() {
 	vAssert(*p.Get(int32(i)) == v && *p.Get(int32(j)) == int64(j)*3, "Set changes exactly one element")
 	vReach("end")
 }
+
+func init() { vRegister("HBig", HBig) }
+
+const hBigN = 300
+
+// HBig: counts beyond the natural word / byte thresholds of the implementation:
+// 300 entities in one table (ids and rows above 255, third and later growths,
+// batch creation larger than twice the capacity increment), an entity with id
+// above 255 as relation target, 20 components added and 18 removed in one call,
+// 70 registered filters (more than one 64-bit word of anything per filter).
+func HBig() {
+	capInc := [3]int{1, 7, 128}[vChoice("capinc", 3)]
+	w := NewWorld(NewConfig().WithCapacityIncrement(capInc).WithRelationCapacityIncrement(1 + vChoice("relinc", 2)))
+	idA := ComponentID[hA](&w)
+	idR := ComponentID[hR1](&w)
+	hFill(&w, 30)
+	var ents [hBigN]Entity
+	base := int64(vU64("base"))
+	half := hBigN / 2
+	for i := 0; i < half; i++ {
+		ents[i] = w.NewEntity(idA)
+		(*hA)(w.Get(ents[i], idA)).X = base + int64(i)
+	}
+	// the second half in one batch (larger than twice every capacity increment but 128)
+	q := NewBuilder(&w, idA).NewBatchQ(hBigN - half)
+	vAssert(q.Count() == hBigN-half, "batch query counts the created entities")
+	i := half
+	for q.Next() {
+		ents[i] = q.Entity()
+		(*hA)(q.Get(idA)).X = base + int64(i)
+		i++
+	}
+	vAssert(i == hBigN, "batch creation creates the requested number of entities")
+	for i := 0; i < hBigN; i++ {
+		vAssert(ents[i] == Entity{eid(i + 1), 0}, "a fresh world issues ids densely")
+	}
+	// remove one from the middle: the last row is swapped in; every other value stays
+	victim := [3]int{0, 100, 256}[vChoice("victim", 3)]
+	w.RemoveEntity(ents[victim])
+	for i := 0; i < hBigN; i++ {
+		if i == victim {
+			vAssert(!w.Alive(ents[i]), "a removed entity is dead")
+			continue
+		}
+		vAssert(w.Alive(ents[i]) && (*hA)(w.Get(ents[i], idA)).X == base+int64(i), "every component keeps its value in a table of 300 rows")
+	}
+	all := All(idA)
+	qc := w.Query(&all)
+	vAssert(qc.Count() == hBigN-1, "Count of a large table")
+	qc.Close()
+	vAssert(w.Stats().Entities.Used == hBigN-1, "Stats().Entities.Used with more than 255 entities")
+	// the recycled id comes back with generation 1; an entity with id above 255 is used as a relation target
+	again := w.NewEntity(idA)
+	vAssert(again == Entity{ents[victim].id, 1}, "the recycled id is re-issued with the next generation")
+	parent := ents[hBigN-1]
+	c1 := NewBuilder(&w, idR).WithRelation(idR).New(parent)
+	c2 := NewBuilder(&w, idR).WithRelation(idR).New(ents[64])
+	vAssert(w.Relations().Get(c1, idR) == parent && w.Relations().Get(c2, idR) == ents[64], "relation targets with ids above 255 and at 64")
+	rf := NewRelationFilter(All(idR), parent)
+	qr := w.Query(&rf)
+	vAssert(qr.Count() == 1, "relation filter for a target with id above 255")
+	qr.Close()
+	w.RemoveEntity(parent)
+	vAssert(w.Alive(c1) && w.Relations().Get(c1, idR) == parent, "child of a dead target with id above 255 keeps the handle")
+	// many components in one call
+	var many [20]ID
+	for k := 0; k < 20; k++ {
+		many[k] = ID{uint8(2 + k)} // filler components 2..21
+	}
+	e := w.NewEntity(idA)
+	w.Add(e, many[:]...)
+	m := w.Mask(e)
+	vAssert(m.TotalBitsSet() == 21, "20 components added in one call")
+	w.Remove(e, many[:18]...)
+	m = w.Mask(e)
+	vAssert(m.TotalBitsSet() == 3 && m.Get(idA) && m.Get(many[18]) && m.Get(many[19]) && (*hA)(w.Get(e, idA)).X == 0, "18 components removed in one call")
+	// 70 registrations of filters
+	var masks [70]Mask
+	var cfs [70]CachedFilter
+	for k := 0; k < 70; k++ {
+		if k%2 == 0 {
+			masks[k] = All(idA)
+		} else {
+			masks[k] = All(idR)
+		}
+		cfs[k] = w.Cache().Register(&masks[k])
+	}
+	vAssert(w.Stats().CachedFilters == 70, "Stats().CachedFilters counts the registrations")
+	w.Cache().Unregister(&cfs[0])
+	w.Cache().Unregister(&cfs[64])
+	fresh := w.NewEntity(idA, many[0]) // a new table reaches every registered filter that matches
+	for _, k := range [4]int{2, 62, 66, 68} {
+		qk := w.Query(&cfs[k])
+		vAssert(qk.Count() == hBigN+1, "a registered filter beyond the 64th registration selects like the plain filter")
+		qk.Close()
+	}
+	q65 := w.Query(&cfs[65])
+	vAssert(q65.Count() == 2, "the 66th registration (relation component) selects the two children")
+	q65.Close()
+	_ = fresh
+	vReach("end")
+}
